@@ -691,6 +691,10 @@ func run(s Script) (nontrivial bool, key string, f *vt.Finding) {
 			}
 			e.nt++
 			cp := cp
+			e.maxD = 2
+			if len(cp) > e.maxD {
+				e.maxD = len(cp)
+			}
 			cutsAt = func(depth, n int) []int {
 				if depth-1 < len(cp) {
 					return []int{cp[depth-1] * n / 1000}
@@ -749,8 +753,10 @@ func gen(all bool) func(t *rapid.T) Script {
 			nc := rapid.IntRange(1, 3).Draw(t, "ncuts")
 			for i := 0; i < nc; i++ {
 				cp := []int{rapid.IntRange(0, 1000).Draw(t, "cut1")}
-				if rapid.Bool().Draw(t, "deep") {
-					cp = append(cp, rapid.IntRange(0, 1000).Draw(t, "cut2"))
+				// deaths while recovering: one more cut per level ("how many times it dies and restarts"),
+				// up to four deaths in a row on the same storage contents
+				for d, deep := 2, rapid.IntRange(0, 7).Draw(t, "deep"); d <= []int{1, 1, 1, 2, 2, 2, 3, 4}[deep]; d++ {
+					cp = append(cp, rapid.IntRange(0, 1000).Draw(t, fmt.Sprintf("cut%d", d)))
 				}
 				s.Cuts = append(s.Cuts, cp)
 			}
